@@ -4,6 +4,8 @@ import warnings
 
 import numpy as np
 
+SX_ERR = [-999]
+
 RULE = ('random base arrays (1-4 axes, 0-7 elements per axis, element = C-order position, random chunking) behind '
         'da.from_array or a recording DictChunkStore.get_dask_array; 1-3 nested DaskLazyIndexers, each with a random '
         'first-stage index (per axis int / slice with any start,stop,step / boolean mask / sorted, unsorted, repeated, '
@@ -1367,6 +1369,14 @@ def run_lazy(ctx, cases):
     outs = [None] * len(cases)
     if ctx.model_ok:
         outs = ctx.model([wire_lazy(c) for c in cases])
+        # when the translator refuses the current tree the pipeline falls back to the last model binary built; use it
+        # for the tie only if it was built from the statement skeleton the tree has now
+        from vh import core
+        from vh.items import c04 as items
+        cur = items.dataset_code(core.REPO)
+        if outs and (cur is None or outs[0] == SX_ERR or outs[0][0] != cur):
+            ctx.extra['lazy_model_binary'] = 'not built from the current DaskLazyIndexer.dataset: spec comparison only'
+            outs = [None] * len(cases)
     for c, o in zip(cases, outs):
         compare_lazy(ctx, c, o)
 
